@@ -5,6 +5,8 @@ history of add / remove / exists operations.  No I/O, no clock: the environment 
 the only thing the simulator schedules is the order of client operations.  Oracle: a set model,
 compared after EVERY operation (return value, stored set, trie view, membership probes).
 """
+import os
+
 from sim.core import canon_json, h64
 
 PID = "C19"
@@ -94,7 +96,7 @@ P_INVIVO = {"quick": 0.0009, "thorough": 0.001}
 
 
 def gen_knobs(rng, tier):
-    if rng.random() < P_INVIVO.get(tier, 0.001):
+    if rng.random() < float(os.environ.get("VERIF_P_INVIVO") or P_INVIVO.get(tier, 0.001)):
         return {"population": "invivo"}
     return {
         "population": "default",
